@@ -266,7 +266,14 @@ impl Client<'_> {
                 Ok(false)
             }
             (OpResult::Err(k), Applied::WriteAll | Applied::Fmt | Applied::FmtLit) => {
-                let expected = hard_raised.first().copied().or(if zeroes > 0 { Some(io::ErrorKind::WriteZero) } else { None });
+                // several inner errors can occur in one call when a Display impl keeps writing
+                // after a failed piece; any of them is "the error from the inner writer"
+                let acceptable = hard_raised.contains(k) || (zeroes > 0 && *k == io::ErrorKind::WriteZero);
+                let expected = if acceptable {
+                    Some(*k)
+                } else {
+                    hard_raised.first().copied().or(if zeroes > 0 { Some(io::ErrorKind::WriteZero) } else { None })
+                };
                 match expected {
                     None => {
                         if *k == io::ErrorKind::Interrupted && raised.contains(k) {
@@ -279,9 +286,14 @@ impl Client<'_> {
                     }
                     _ => {}
                 }
-                // progress is unspecified after a failed write_all: only "no wrong data"
-                if let Some(v) = self.check_invariants(false, &what) {
-                    return Err(v);
+                // progress is unspecified after a failed write_all: only "no wrong data" - unless
+                // the Display impl itself kept writing later fragments after the failed one
+                if !fmt_keeps_going(op) {
+                    if let Some(v) = self.check_invariants(false, &what) {
+                        return Err(v);
+                    }
+                } else {
+                    self.st.probe("display_kept_writing_after_error");
                 }
                 Ok(true)
             }
